@@ -8,6 +8,7 @@ import (
 	"math"
 	"path"
 	"path/filepath"
+	"strings"
 
 	"reduction.dev/reduction/dkv/recovery"
 	"reduction.dev/reduction/proto/snapshotpb"
@@ -111,4 +112,19 @@ func pathSegment(id uint64) string {
 	buf := make([]byte, 8)
 	binary.BigEndian.PutUint64(buf, reversed)
 	return base64.RawURLEncoding.EncodeToString(buf)
+}
+
+// checkpointIDFromPath recovers the checkpoint ID from a snapshot file path
+// written as "job-<pathSegment(id)>.snapshot".
+func checkpointIDFromPath(filePath string) (id uint64, ok bool) {
+	name := strings.TrimSuffix(filepath.Base(filePath), filepath.Ext(filePath))
+	segment, found := strings.CutPrefix(name, "job-")
+	if !found {
+		return 0, false
+	}
+	buf, err := base64.RawURLEncoding.DecodeString(segment)
+	if err != nil || len(buf) != 8 {
+		return 0, false
+	}
+	return math.MaxUint64 - binary.BigEndian.Uint64(buf), true
 }
